@@ -171,6 +171,9 @@ class QG:
             chain.append(".where(%s)" % g.crit(2))
         if r.random() < 0.2:
             chain.append(".where(%s)" % g.crit(1))
+        if self.vendor_terms and not self.sqlite_ok and r.random() < 0.12:
+            # PREWHERE is a clause of the generic builder (ClickHouse syntax): identifiers in it follow the statement like all others
+            chain.append(".prewhere(%s)" % g.crit(1))
         if r.random() < 0.35:
             gb = [r.choice(aliases)] if aliases and r.random() < 0.5 else [r.choice(pool)]
             if r.random() < 0.3:
